@@ -3,9 +3,9 @@ import t2
 import t3
 
 HEADER_DECLS = """
-#[derive(Debug)] pub struct S { pub f: i32, pub g: i32, pub s: String, pub xs: Vec<i32>, pub m: BTreeMap<String, i32>, pub k: String, pub i: usize, pub o: Option<i32>, pub t: (i32, i32) }
+#[derive(Debug)] pub struct S { pub f: i32, pub g: i32, pub s: String, pub xs: Vec<i32>, pub m: BTreeMap<String, i32>, pub k: String, pub i: usize, pub o: Option<i32>, pub t: (i32, i32), pub big: BTreeMap<String, i32>, pub bxs: Vec<i32>, pub t9: (i32, i32, i32, i32, i32, i32, i32, i32, i32) }
 impl S { pub fn pick(&self, j: usize) -> &i32 { &self.xs[j] } }
-pub fn mk() -> S { S { f: 3, g: 4, s: "abc".to_string(), xs: vec![10, 20, 30], m: BTreeMap::from([("a".to_string(), 1), ("b".to_string(), 2)]), k: "b".to_string(), i: 2, o: Some(3), t: (3, 9) } }
+pub fn mk() -> S { S { f: 3, g: 4, s: "abc".to_string(), xs: vec![10, 20, 30], m: BTreeMap::from([("a".to_string(), 1), ("b".to_string(), 2)]), k: "b".to_string(), i: 2, o: Some(3), t: (3, 9), big: "abcdefghij".chars().enumerate().map(|(i, c)| (c.to_string(), i as i32 + 1)).collect(), bxs: (0..17).collect(), t9: (0, 1, 2, 3, 4, 5, 6, 7, 8) } }
 pub struct Num(pub i32);
 impl Like<Num> for i32 { fn like(&self, p: &Num) -> bool { *self == p.0 } }
 """
@@ -73,6 +73,20 @@ for _kind, _pat in [("simple", "10"), ("comparison", "== 10"), ("comparison-ne",
     HELPER_HOLES.append(("method-arg-under-" + _kind, "S {{ xs.get({N}).unwrap(): " + _pat.replace("|x| x ==", "|x| *x ==") + ", .. }}", "0usize", PLAIN_NAMES))
 for _kind, _pat in [("string", '"bc"'), ("regex", '=~ "b."'), ("closure-str", "|x| x.len() == 2")]:
     HELPER_HOLES.append(("method-arg-under-" + _kind + "-all-names", "S {{ s.get({N}..).unwrap(): " + _pat + ", .. }}", "1usize", PLAIN_NAMES))
+
+# a user expression inside a LARGE composite (8, 9, 10, 16, 17 entries / elements / fields): a template that treats composites above a
+# size threshold differently (binds the collection once, switches to a loop, chunks the arms) must still not let anything it binds be
+# visible to the user's expressions (seed C07-13 bound the map to a local `map` for 8 entries and more)
+SIZE_NAMES = ["map", "set", "slice", "items", "elems", "len", "keys", "entry", "coll", "iter", "value", "tmp", "elem", "key", "idx", "node", "m", "big", "src", "this"]
+for _n in (8, 9, 10):
+    _ks = "abcdefghij"[:_n]
+    HELPER_HOLES.append(("operand-inside-map-of-%d-first" % _n, "S {{ big: #{{ " + ", ".join(('"%s": == {N}' % c) if i == 0 else ('"%s": %d' % (c, i + 1)) for i, c in enumerate(_ks)) + ", .. }}, .. }}", "1i32", SIZE_NAMES))
+    HELPER_HOLES.append(("operand-inside-map-of-%d-last" % _n, "S {{ big: #{{ " + ", ".join(('"%s": == {N}' % c) if i == _n - 1 else ('"%s": %d' % (c, i + 1)) for i, c in enumerate(_ks)) + ", .. }}, .. }}", "%di32" % _n, SIZE_NAMES))
+for _n in (8, 9, 16, 17):
+    HELPER_HOLES.append(("operand-inside-slice-of-%d" % _n, "S {{ bxs: [" + ", ".join("== {N}" if i == _n - 1 else str(i) for i in range(_n)) + ", ..], .. }}", "%di32" % (_n - 1), SIZE_NAMES))
+    HELPER_HOLES.append(("operand-inside-set-of-%d" % _n, "S {{ bxs: #(" + ", ".join("== {N}" if i == _n - 1 else str(i) for i in range(_n)) + ", ..), .. }}", "%di32" % (_n - 1), SIZE_NAMES))
+HELPER_HOLES.append(("operand-inside-tuple-of-9", "S {{ t9: (0, 1, 2, 3, 4, 5, 6, 7, == {N}), .. }}", "8i32", SIZE_NAMES))
+HELPER_HOLES.append(("operand-inside-struct-of-9-fields", "S {{ g: _, s: _, xs: _, m: _, k: _, i: _, o: _, t: _, f: == {N}, .. }}", "3i32", SIZE_NAMES))
 
 
 def make_cases(rng, _n):
